@@ -78,7 +78,7 @@ def run(tier, seed, model):
     camp = common.Campaign()
     rng = random.Random(seed * 7919 + 15)
     n = 500 if tier == "quick" else 12000
-    batch = Batch(model)
+    batch = Batch(model, camp, "C15")
     guard = GuardedRunner(timeout=20)
     streams = [(name, 0, None, data) for name, data in handcrafted()]
     streams += [(name, 1, "pw", data) for name, data in handcrafted()]
